@@ -70,6 +70,12 @@ def step (s0 : DS) (line : String) : DS × String :=
   match (line.splitOn " ").filter (· ≠ "") with
   | ["res", rs] => ({ s with rs := (rs.splitOn ",").map parseRes, phantom := [] }, "ok")
   | ["phantom", h] => ({ s with phantom := hexBytes h }, "ok")
+  -- a real swamp (pointer events on): the model is the key/value Spec itself
+  | ["sw", "new"] => ({ s with spec := [] }, "ok")
+  | ["sw", "save", k, v] => ({ s with spec := Index.put s.spec (nat k) (nat v) }, "ok")
+  | ["sw", "del", k] => ({ s with spec := Index.del s.spec (nat k) }, "ok")
+  | ["sw", "load", _] => (s, "ok " ++ showIndex s.spec)
+  | "sw" :: _ => (s, "ok")
   | ["act", "w", items] =>
     let its := parseItems items
     let out := cWriteF s.cfg s.fc s.mk' ⟨s.cs, s.mdisk, s.rs⟩ its
@@ -99,7 +105,8 @@ def cfgOfArgs (kv : List (String × String)) : Cfg :=
 def run (args : List String) : IO UInt32 := do
   let kv := parseArgs args
   let fc : FCfg := ⟨boolArg kv "clearsBufferBeforeWrite", boolArg kv "rollsBackFailedBlock", boolArg kv "restoresOffsetAfterHeader",
-    boolArg kv "splitsOversizedBuffer"⟩
+    boolArg kv "splitsOversizedBuffer", !(kv.lookup "writeEntryReportsFlushError" == some "no"),
+    boolArg kv "closeKeepsFileOnError"⟩
   lineLoop step { cfg := cfgOfArgs kv, fc := fc, probe := false }
   return 0
 
